@@ -1064,6 +1064,8 @@ def compare(case, obs, mouts):
             return f"decoder: implementation ok, model {m['dec']}"
         if pv.canon(obs["dec"]) != pv.canon(m["dec"]["ok"]):
             return "decoded value differs: impl " + json.dumps(obs["dec"])[:300] + " model " + json.dumps(m["dec"]["ok"])[:300]
+        if m["decodable"] and pv.canon(m["norm"]) != pv.canon(obs["dec"]):
+            return "decoded value differs from Serialize.norm (theorem roundtrip_lossy): impl " + json.dumps(obs["dec"])[:300] + " norm " + json.dumps(m["norm"])[:300]
         if m["encodable"] and pv.canon(m["dec"]["ok"]) != pv.canon(obs["seen"]):
             return "model: Encodable but round trip not identity (theorem roundtrip_tree contradicted by the driver?)"
         if len(mouts) > 1 and "skeleton" in obs:
